@@ -19,7 +19,7 @@
    trace are untouched, and [tick] answers exactly the state [exec] produced. *)
 From Coq Require Import ZArith List Bool.
 From QV Require Import Sx Strs Fl Cell Machine Cpu Verifier VerifierProofs ErrProofs
-     VerifierCfg VerifierCtl VerifierCfgProofs.
+     Monitor VerifierCfg CertObs VerifierCtl VerifierCfgProofs.
 Import ListNotations.
 Open Scope Z_scope.
 
@@ -96,6 +96,21 @@ Theorem C03_stack_instr_control : forall m i s t',
   eff i (tys (stack s)) = Some t' -> ctl_post i s (exec m i s).
 Proof. exact eff_ctl. Qed.
 Print Assumptions C03_stack_instr_control.
+
+(* frame rule: typing does not depend on the cells below the ones used ... *)
+Theorem C03_eff_frame : forall i t t' r,
+  eff i t = Some t' -> eff i (t ++ r) = Some (t' ++ r).
+Proof. exact eff_frame. Qed.
+Print Assumptions C03_eff_frame.
+
+(* ... so a certificate checked RELATIVE to a base depth (the certificates
+   Models/CertObs.v collects from real runs, relative to the stack depth at the
+   start of the source statement) is a certificate under every stack tail r -
+   whatever return addresses and caller operands lie below *)
+Theorem C03_cert_frame : forall m c r,
+  check_cert m c = true -> check_cert m (cert_shift r c) = true.
+Proof. exact check_cert_frame. Qed.
+Print Assumptions C03_cert_frame.
 
 (* non-vacuity: a counting loop
       0: push% 3   3: dupl   4: jz 18   9: push% 1   12: sub   13: jmp 3   18: pop   19: halt
